@@ -284,7 +284,16 @@ def r09_6(run):
     run.ob('R09.6', ep, ep.node, 'connect registers (its own endpoint, its own circuit)', ok, slot='register', message='TorCircuitEndpoint.connect does not register (self._target_endpoint, self._circuit)')
 
 
+def r09_7(run):
+    ep = run.idx.find_method(run.idx.cls('TorCircuitEndpoint', 'circuit'), 'connect')
+    ga = run.idx.unit('circuit._get_circuit_attacher')
+    at = run.idx.find_method(run.idx.cls('_CircuitAttacher', 'circuit'), 'attach_stream')
+    k = dropped_deferreds(run, 'R09.7', [ep, ga, at], 'the via-circuit connection')
+    run.floor('R09.7', 'suspension points in the via-circuit coroutines', k, 5)
+
+
 RULES = [
+    ('R09.7', 'no dropped Deferred in the via-circuit coroutines (attacher installed and circuit built before connecting; registration awaited)', r09_7),
     ('R09.1', 'path enumeration over the classes of attacher answers: the do-not-attach marker reaches no command', r09_1_2),
     ('R09.2', 'exactly one ATTACHSTREAM per decision (None => 0, good circuit => its id); consulted once, only for new streams; chain ends in _attacher_error', lambda run: None),
     ('R09.3', 'dominance: .exit targets and "no attacher" return before the attacher is consulted', lambda run: None),
@@ -296,6 +305,7 @@ RULES = [
 from ..selftest import M  # noqa: E402
 FT, FC = 'txtorcon/torstate.py', 'txtorcon/circuit.py'
 MUTANTS = [
+    M('when-built-not-awaited', FC, "        yield self._circuit.when_built()\n        connect_d", "        self._circuit.when_built()\n        connect_d", ['R09.7']),
     M('marker-like-none', FT, "            if circ is TorState.DO_NOT_ATTACH:\n                # neither attach it, nor tell Tor to attach it\n                return None\n\n            if circ is None:", "            if circ is None or circ is TorState.DO_NOT_ATTACH:", ['R09.1']),
     M('two-commands-built', FT, "                return self.protocol.queue_command(\n                    u\"ATTACHSTREAM {} {}\".format(stream.id, circ.id).encode(\"ascii\")\n                )", "                self.protocol.queue_command(\n                    u\"ATTACHSTREAM {} 0\".format(stream.id).encode(\"ascii\")\n                )\n                return self.protocol.queue_command(\n                    u\"ATTACHSTREAM {} {}\".format(stream.id, circ.id).encode(\"ascii\")\n                )", ['R09.2']),
     M('ids-swapped', FT, "u\"ATTACHSTREAM {} {}\".format(stream.id, circ.id)", "u\"ATTACHSTREAM {} {}\".format(circ.id, stream.id)", ['R09.2']),
